@@ -5,7 +5,8 @@ CONSTANTS
   InIds = {1, 2}
   MaxOps = 6
   MaxConn = 3
+  Stalls = TRUE
   Dev = {}
   Record = FALSE
-INVARIANTS Inv_C14_wire Inv_C14_stored Inv_C12_usable Inv_C04_recorded Inv_C04_once Inv_C04_delivered
+INVARIANTS Inv_C14_wire Inv_C14_stored Inv_C12_usable Inv_KF Inv_C04_recorded Inv_C04_once Inv_C04_delivered
 CHECK_DEADLOCK FALSE
